@@ -35,6 +35,27 @@ OWNED_ATTRS = {"ctx.global_array", "ctx.stacks", "ctx.inputs",
 COPIERS = {"deep_copy", "list", "tuple", "sorted", "reversed"}
 
 
+# owned lists some element mutates in place (ctx.global_array.append / .pop)
+MUTATED_IN_PLACE = {"ctx.global_array"}
+
+
+def shared_leaves(e, vals):
+    """popped names that `e` may evaluate to without a copy (through
+    conditional expressions, `or`/`and`, and identity-like helpers)"""
+    if isinstance(e, ast.IfExp):
+        return shared_leaves(e.body, vals) + shared_leaves(e.orelse, vals)
+    if isinstance(e, ast.BoolOp):
+        return [x for v in e.values for x in shared_leaves(v, vals)]
+    if isinstance(e, ast.NamedExpr):
+        return shared_leaves(e.value, vals)
+    if isinstance(e, ast.Name):
+        return [e.id] if e.id in vals else []
+    if isinstance(e, ast.Call) and (dotted(e.func) or "").split(".")[-1] in (
+            "iterable", "vyxalify") and e.args:
+        return shared_leaves(e.args[0], vals)
+    return []
+
+
 def norm_site(site):
     return " ".join(site.desc.split())
 
@@ -217,6 +238,20 @@ def templates(chk, repo, gen, ea, EF, tier):
                            f"(`{ast.unparse(n)[:50]}`): every other reference "
                            "to that value sees the change", EF, line,
                            witness=TEMPLATE_WITNESS.get(cons))
+            # (D3) the global array is appended to / popped in place: what
+            # is stored there has to be a list nothing else refers to
+            if isinstance(n, ast.Assign) and any(
+                    dotted(t) in MUTATED_IN_PLACE for t in n.targets):
+                for leaf in shared_leaves(n.value, vals):
+                    ok = False
+                    chk.ob("C10.owned-list-assigned-fresh",
+                           f"{cons}:{dotted(n.targets[0])} = {leaf}", False,
+                           f"`{ast.unparse(n)[:70]}` makes the popped value "
+                           f"`{leaf}` itself the interpreter's list; the "
+                           "elements that append to / pop from that list in "
+                           "place then change every other reference to the "
+                           "value (a duplicate, a variable)", EF, line,
+                           witness="⟨1|2⟩ : <store> 9 ⅛ _ shows ⟨1|2|9⟩")
             # (D2) owned lists pushed / stored bare
             if isinstance(n, ast.Call) and isinstance(n.func, ast.Attribute) \
                     and n.func.attr == "append" and n.args:
